@@ -142,6 +142,7 @@ void profile_geomapi(const json& plan, Ctx& ctx) {
 	ctx.sig.str(vname); ctx.sig.i(nv); ctx.sig.i((long long) mesh.t.size()); ctx.sig.i(wantUV); ctx.sig.i(wantN);
 	ctx.nontrivial = true;
 	if (nv == 65535) ctx.probe("vertex_limit_mesh");
+	if (mesh.t.size() > 65535) ctx.probe("triangle_count_above_16_bit");
 	if (nv <= 2) ctx.probe("tiny_mesh");
 	bool fullprec = false;
 	bool posRounded = false; // positions have been through a half-precision file since they were last set
